@@ -218,10 +218,21 @@ def checkC02 (h : History) (obs : List RunObs) : Option String :=
 
 /-! ### C04 / C05 — ordering of actuation w.r.t. dependencies -/
 
-/-- explicit + implicit dependencies of an object within a set of ids -/
-def depsIn (h : History) (ids : List Id) (id : Id) : List Id :=
-  let m := manifestFor h id
-  let expl := match m with | some m => m.deps ++ (match m.mutFrom with | some s => [s] | none => []) | none => []
+/-- the dependencies a manifest declares (an unparseable annotation declares none that anybody could honour) -/
+def declaredDeps (m : Manifest) : List Id :=
+  if m.depsRaw ≠ "" then [] else m.deps ++ (match m.mutFrom with | some s => [s] | none => [])
+
+/-- explicit + implicit dependencies of an object of run `r` within a set of ids.  For an object of the apply set: what
+this run's manifest declares.  For an object that is only tracked (its live annotations count): what its manifests in
+the history declare, provided they all declare the same — otherwise the predicate makes no claim about it. -/
+def depsIn (h : History) (r : Run) (ids : List Id) (id : Id) : List Id :=
+  let expl : List Id :=
+    match (if r.destroy then none else r.objs.find? (fun m => m.id = id)) with
+    | some m => declaredDeps m
+    | none =>
+      match (h.runs.flatMap (·.objs) ++ h.pre).filter (fun m => m.id = id) with
+      | [] => []
+      | m :: rest => if rest.all (fun m' => declaredDeps m' = declaredDeps m) then declaredDeps m else []
   let nsDep : List Id := if id.ns ≠ "" then [{ ns := "", name := id.ns, group := "", kind := "Namespace" }] else []
   (expl ++ nsDep).filter (· ∈ ids)
 
@@ -254,6 +265,18 @@ def staleInitialReportedReconciled (h : History) (obs : List RunObs) (k : Nat) (
             some s!"C04 run {k}: {d.name} reported reconciled at the start of its wait phase although its only observation (generation {live0.gen}) is older than the applied generation {live1.gen}"
           else none
 
+/-- an applied object whose controller script never shows it Current at a generation as new as the applied one (and that
+was not reported by the watcher before the run started) cannot be reported reconciled -/
+def reconciledWithoutObservation (k : Nat) (o : RunObs) (r : Run) : Option String :=
+  if r.opts.dry ≠ .none || r.destroy then none else
+  (r.objs.map (·.id)).findSome? fun d =>
+    if d ∈ r.initial then none
+    else if (r.ctrl.lookup d).getD "current" ∈ ["never", "stale", "failed", "failed-stale"] then
+      if o.events.any (fun e => match e with | .wait _ i st => i = d && st = "Successful" | _ => false) then
+        some s!"C04 run {k}: {d.name} reported reconciled although it was never observed Current at the applied generation"
+      else none
+    else none
+
 def checkC04 (h : History) (obs : List RunObs) : Option String :=
   (List.range obs.length).findSome? fun k =>
     match obs[k]?, h.runs[k]? with
@@ -261,9 +284,9 @@ def checkC04 (h : History) (obs : List RunObs) : Option String :=
       if r.destroy then none else
       let applySet := r.objs.map (·.id)
       let dry := r.opts.dry ≠ .none
-      (staleInitialReportedReconciled h obs k o r) <|> o.muts.findSome? fun m =>
+      (staleInitialReportedReconciled h obs k o r) <|> (reconciledWithoutObservation k o r) <|> o.muts.findSome? fun m =>
         if (m.verb = "patch" || m.verb = "create") && !isInvReq m && m.id ≠ nsInvId || (m.id = nsInvId && m.verb = "patch") then
-          (depsIn h applySet m.id).findSome? fun d =>
+          (depsIn h r applySet m.id).findSome? fun d =>
             if opResultBefore o.events m.evIdx ["apply"] d ≠ some "Successful" then
               some s!"C04 run {k}: {m.id.name} sent to the API server before its dependency {d.name} was applied successfully"
             else if !dry && lastWaitBefore o.events m.evIdx d ≠ some "Successful" then
@@ -283,7 +306,7 @@ def checkC05 (h : History) (obs : List RunObs) : Option String :=
       let bad := o.muts.findSome? fun m =>
         if m.verb = "delete" && !isInvReq m then
           -- every object of the run that depends on m.id and exists must have been deleted and observed gone before
-          (all.filter (fun x => m.id ∈ depsIn h all x && (snapFind s0 x).isSome || (m.id ∈ depsIn h all x && x ∈ applySet))).findSome? fun x =>
+          (all.filter (fun x => m.id ∈ depsIn h r all x && (snapFind s0 x).isSome || (m.id ∈ depsIn h r all x && x ∈ applySet))).findSome? fun x =>
             if x ∈ applySet then some s!"C05 run {k}: {m.id.name} deleted although {x.name}, which depends on it, is in the apply set"
             else if opResultBefore o.events m.evIdx ["prune", "delete"] x ≠ some "Successful" then
               some s!"C05 run {k}: {m.id.name} deleted before its dependent {x.name} was deleted"
@@ -299,7 +322,7 @@ def checkC05 (h : History) (obs : List RunObs) : Option String :=
 def generatedInvalid (r : Run) (pruneIds : List Id) : List Id :=
   -- invalid by construction of the generator: field errors, and the named families of bad references
   -- (a reference is external if it is neither in the apply set nor among the tracked objects that still exist)
-  (r.objs.filter (fun m => fieldInvalid m || m.depsRaw ≠ "" ||
+  (r.objs.filter (fun m => fieldInvalid m || m.depsRaw ≠ "" || (m.mutExt && m.mutFrom.isSome) ||
       (m.deps ++ (match m.mutFrom with | some x => [x] | none => [])).any (fun d => d ∉ r.objs.map (·.id) && d ∉ pruneIds) || dedup m.deps ≠ m.deps ||
       (m.id.name = "x" || m.id.name = "y") && m.deps.any (fun d => d.name = "x" || d.name = "y"))).map (·.id)
 
@@ -338,7 +361,7 @@ def checkC11 (h : History) (obs : List RunObs) : Option String :=
                 -- objects depending on an invalid object are not applied
                 let applySet := r.objs.map (·.id)
                 (o.muts.find? (fun m => (m.verb = "create" || m.verb = "patch") && !isInvReq m &&
-                    (depsIn h applySet m.id).any (· ∈ bad))).map
+                    (depsIn h r applySet m.id).any (· ∈ bad))).map
                   (fun m => s!"C11 run {k}: {m.id.name} depends on an invalid object but was applied")
     | _, _ => none
 
